@@ -83,6 +83,14 @@ pub fn generate_scenario(property: &str, seed: u64, run: u64, thorough: bool) ->
         if r.chance(0.3) {
             f.reconfig = r.log_uniform(0.004, 0.03);
         }
+        // some signatures travel through the message queue
+        if matches!(property, "C14" | "C16" | "C02") && r.chance(if property == "C16" { 0.5 } else { 0.25 }) {
+            f.dmq = r.log_uniform(0.1, 0.7);
+        }
+        // relabelled copies and wrong-epoch keys also in the safety runs of C14 / C02
+        if matches!(property, "C14" | "C02") && r.chance(0.3) {
+            f.adversary = r.log_uniform(0.02, 0.2);
+        }
     }
     Scenario {
         property: property.to_string(),
@@ -408,6 +416,9 @@ impl Driver {
                 if f.stale_delivery > 0.0 && rng.chance(f.stale_delivery) {
                     return Event::Tick;
                 }
+                if is_sig && f.dmq > 0.0 && rng.chance(f.dmq) {
+                    return Event::DeliverDmq { id, keep };
+                }
                 Event::Deliver { id, keep, damage }
             }
             5 => Event::SyncView,
@@ -435,6 +446,10 @@ impl Driver {
             13 => {
                 let mut sources: Vec<u32> = inflight.iter().copied().filter(|i| matches!(w.inflight[i].kind, MsgKind::Signature { forged: None, .. })).collect();
                 sources.extend(w.deliveries.iter().rev().take(12).filter(|d| matches!(d.msg.kind, MsgKind::Signature { forged: None, .. })).map(|d| d.msg.id));
+                if om.is_some() && rng.chance(0.2) {
+                    self.next_id += 1;
+                    return Event::SignWithNextKey { id: self.next_id, party: rng.index(w.parties.len()) };
+                }
                 if sources.is_empty() {
                     return Event::Tick;
                 }
